@@ -1271,3 +1271,110 @@ Proof.
     destruct (sp_selector sel) as [[b c] d]. cbn [commit]. exists seq. now apply rejected_keeps.
   - cbn [app assigns_glued] in *. destruct (assign_glued ns h0 g) as [h'|]; [|discriminate]. now apply IH.
 Qed.
+
+(* ================================================================== part 4: @page selectors *)
+Lemma prun_ws e wf er ls n f l q w r :
+  exists ls' q', prun (mkP e wf er ls n f l q) (r_ws w ++ r) = prun (mkP e wf er ls' n f l q') r
+                 /\ (e <> PE_colon_or_EOF -> ls' = ls).
+Proof.
+  revert ls q. induction w as [|x w IH]; intros ls q; [exists ls, q; split; auto|].
+  destruct x as [v|v]; cbn [r_ws map r_w app prun sty].
+  - destruct e; cbn [is_pe p_e].
+    + destruct (IH ls q) as (ls' & q' & E & K). exists ls', q'. split; auto.
+    + destruct (IH true q) as (ls' & q' & E & K). exists ls', q'. split; [exact E|congruence].
+    + destruct (IH ls q) as (ls' & q' & E & K). exists ls', q'. split; auto.
+  - unfold p_push. cbn [p_e p_wf p_err p_lastS p_name p_first p_lr p_seq].
+    destruct (IH ls ((s "COMMENT", v) :: q)) as (ls' & q' & E & K). exists ls', q'. split; auto.
+Qed.
+Lemma prun_cm e wf er ls n f l q c r :
+  exists q', prun (mkP e wf er ls n f l q) (r_cm c ++ r) = prun (mkP e wf er ls n f l q') r.
+Proof.
+  revert q. induction c as [|v c IH]; intros q; [exists q; reflexivity|].
+  cbn [r_cm map app prun sty]. unfold p_push. cbn [p_e p_wf p_err p_lastS p_name p_first p_lr p_seq].
+  destruct (IH ((s "COMMENT", v) :: q)) as (q' & E). exists q'. exact E.
+Qed.
+
+Lemma prun_name ls q n r : eqs (normalize n) (s "auto") = false ->
+  prun (mkP PE_page true false ls 0 0 0 q) (mkS TIDENT n :: r) =
+  prun (mkP PE_colon_or_EOF true false ls 1 0 0 ((s "IDENT", n) :: q)) r.
+Proof. intros H. cbn [prun sty sval is_pe p_e]. rewrite H. reflexivity. Qed.
+
+Definition pp_first (x : ppseudo) : nat := match x with PFirst => 1 | _ => 0 end.
+Definition pp_lr (x : ppseudo) : nat := match x with PFirst => 0 | _ => 1 end.
+Lemma prun_pseudo e n q x r : e <> PE_EOF ->
+  prun (mkP e true false false n 0 0 q) (ch ":" :: mkS TIDENT (ppseudo_name x) :: r) =
+  prun (mkP PE_EOF true false false n (pp_first x) (pp_lr x) ((s "pseudo", s ":" ++ ppseudo_name x) :: q)) r.
+Proof. intros He. destruct e; [| |congruence]; destruct x; reflexivity. Qed.
+
+Lemma run_page_final raising e ls n f l q :
+  (if p_wf (mkP e true false ls n f l q) && negb (raising && p_err (mkP e true false ls n f l q))
+   then PAccepted n f l (rev q) else PRejected) = PAccepted n f l (rev q).
+Proof. cbn [p_wf p_err]. rewrite andb_false_r. reflexivity. Qed.
+
+Definition pgood (σ : pst) (n f l : nat) : Prop :=
+  p_wf σ = true /\ p_err σ = false /\ p_name σ = n /\ p_first σ = f /\ p_lr σ = l.
+
+Lemma page_tail_ok p e n q : e <> PE_EOF ->
+  exists σ', prun (mkP e true false false n 0 0 q)
+                  (match pg_pseudo p with Some x => [ch ":"; mkS TIDENT (ppseudo_name x)] | None => [] end ++ r_ws (pg_trail p))
+             = Some σ' /\ pgood σ' n (first_page p) (left_or_right p).
+Proof.
+  intros He. unfold first_page, left_or_right. destruct (pg_pseudo p) as [x|].
+  - cbn [app]. rewrite prun_pseudo by assumption.
+    destruct (prun_ws PE_EOF true false false n (pp_first x) (pp_lr x) ((s "pseudo", s ":" ++ ppseudo_name x) :: q)
+                (pg_trail p) []) as (ls' & q' & E & _).
+    rewrite app_nil_r in E. rewrite E. eexists. split; [reflexivity|]. destruct x; repeat split.
+  - cbn [app]. destruct (prun_ws e true false false n 0 0 q (pg_trail p) []) as (ls' & q' & E & _).
+    rewrite app_nil_r in E. rewrite E. eexists. split; [reflexivity|]. repeat split.
+Qed.
+
+Theorem page_specificity_lemma raising p : ok_page p = true ->
+  exists seq, run_page raising (render_page p) = PAccepted (named p) (first_page p) (left_or_right p) seq.
+Proof.
+  intros Hok. unfold run_page, render_page, pst0.
+  destruct (prun_ws PE_page true false false 0 0 0 [] (pg_lead p)
+              (match pg_name p with Some n => [mkS TIDENT n] | None => [] end ++ r_cm (pg_cm p) ++
+               match pg_pseudo p with Some x => [ch ":"; mkS TIDENT (ppseudo_name x)] | None => [] end ++
+               r_ws (pg_trail p))) as (ls1 & q1 & E1 & K1).
+  rewrite E1, (K1 ltac:(discriminate)). clear E1 K1 ls1.
+  assert (F : forall σ n f l, pgood σ n f l ->
+     exists seq, (if p_wf σ && negb (raising && p_err σ) then PAccepted (p_name σ) (p_first σ) (p_lr σ) (rev (p_seq σ))
+                  else PRejected) = PAccepted n f l seq).
+  { intros σ n f l (A & B & C & D & E). rewrite A, B, C, D, E, andb_false_r. eexists. reflexivity. }
+  unfold ok_page, named in *. destruct (pg_name p) as [n|].
+  - apply negb_true_iff in Hok. cbn [app]. rewrite prun_name by assumption.
+    destruct (prun_cm PE_colon_or_EOF true false false 1 0 0 ((s "IDENT", n) :: q1) (pg_cm p)
+                (match pg_pseudo p with Some x => [ch ":"; mkS TIDENT (ppseudo_name x)] | None => [] end ++
+                 r_ws (pg_trail p))) as (q2 & E2).
+    rewrite E2.
+    destruct (page_tail_ok p PE_colon_or_EOF 1 q2 ltac:(discriminate)) as (σ' & E3 & G). rewrite E3. now apply F.
+  - cbn [app].
+    destruct (prun_cm PE_page true false false 0 0 0 q1 (pg_cm p)
+                (match pg_pseudo p with Some x => [ch ":"; mkS TIDENT (ppseudo_name x)] | None => [] end ++
+                 r_ws (pg_trail p))) as (q2 & E2).
+    rewrite E2.
+    destruct (page_tail_ok p PE_page 0 q2 ltac:(discriminate)) as (σ' & E3 & G). rewrite E3. now apply F.
+Qed.
+
+Lemma page_rejected_keeps raising h rej :
+  Forall (fun a => forall h', page_assign raising h' a = Some h') rej -> page_assigns raising h rej = Some h.
+Proof. induction 1 as [|a rej Ha _ IH]; [reflexivity|]. cbn [page_assigns]. rewrite Ha. exact IH. Qed.
+
+(* a successful assignment of a page selector: through selectorText, or through cssText with a block that is
+   committed in the given mode *)
+Definition good_assign (raising : bool) (p : pagesel) (a : passign) : Prop :=
+  a = ASel (render_page p) \/ a = ACss true (render_page p) BOk \/ (raising = false /\ a = ACss true (render_page p) BLogged).
+
+Theorem page_held_specificity_lemma raising h0 before p a rej :
+  ok_page p = true -> good_assign raising p a ->
+  Forall (fun a => forall h', page_assign raising h' a = Some h') rej ->
+  forall h1, page_assigns raising h0 before = Some h1 ->
+  exists seq, page_assigns raising h0 (before ++ a :: rej) = Some (mkPH (named p, first_page p, left_or_right p) seq).
+Proof.
+  intros Hok Ha Hr h1. revert h0. induction before as [|b before IH]; intros h0 Hb.
+  - cbn [app page_assigns]. destruct (page_specificity_lemma raising p Hok) as (seq & E).
+    assert (X : page_assign raising h0 a = Some (mkPH (named p, first_page p, left_or_right p) seq)).
+    { destruct Ha as [->|[->|[-> ->]]]; cbn [page_assign]; rewrite E; reflexivity. }
+    rewrite X. exists seq. now apply page_rejected_keeps.
+  - cbn [app page_assigns] in *. destruct (page_assign raising h0 b) as [h'|]; [|discriminate]. now apply IH.
+Qed.
